@@ -173,7 +173,7 @@ class ComputeChi2(NumericJob):
             if rng.random() < 0.3:
                 A = np.vander(np.linspace(-1, 1, N), M, increasing=True)
             b = A @ _rand(rng, (M,), -3, 3) + _rand(rng, (N,)) * rng.choice([0.0, 0.1, 1.0])
-            sq = _rand(rng, (N,), 0.2, 3.0)
+            sq = _rand(rng, (N,), 0.2, 3.0) * rng.choice([1.0, 1.0, 1.0e-5, 1.0e4])      # the optimum does not depend on the overall scale of the weights
             sq[np.array([rng.random() < rng.choice([0.0, 0.3]) for _ in range(N)])] = 0.0
             if (sq > 0).sum() < M + 1 or np.linalg.cond(A * sq[:, None]) > 1e4:
                 continue
@@ -204,7 +204,7 @@ class ComputeChi2(NumericJob):
         if int(r.dof) != int((sq > 0).sum()) - M:
             bad.append(("dof_counts_positive_weights_minus_unknowns", "%r for %d positive weights and %d unknowns" % (r.dof, (sq > 0).sum(), M)))
         cov = np.linalg.inv(A.T @ (A * (sq ** 2)[:, None]))
-        if not (np.allclose(r.covar, cov, rtol=1e-6, atol=1e-9 * np.abs(cov).max()) and np.allclose(r.var, np.diag(cov), rtol=1e-6, atol=0)
+        if not (np.allclose(r.covar, cov, rtol=1e-6, atol=1e-9 * np.abs(cov).max()) and np.allclose(r.var, np.diag(cov), rtol=1e-6, atol=1e-12 * np.abs(cov).max())
                 and np.array_equal(np.asarray(r.var), np.diag(np.asarray(r.covar)))):
             bad.append(("covariance_is_inverse_of_AtWA_and_var_its_diagonal", "max deviation %g" % np.abs(np.asarray(r.covar) - cov).max()))
         return bad
@@ -272,6 +272,9 @@ def _hmf_data(rng, nonneg):
     mask = np.array([[rng.random() < 0.08 for _ in range(Mp)] for _ in range(N)])
     mask[:, mask.sum(axis=0) > N - 3] = False
     w[mask] = 0.0
+    if rng.random() < 0.35:          # pixels without any coverage at the ends of the range: dropped by the solver, the rest must behave as before
+        w[:, :rng.randint(1, 4)] = 0.0
+        w[:, Mp - rng.randint(1, 3):] = 0.0
     return N, Mp, K, s, w
 
 
@@ -304,7 +307,7 @@ class HMFIteration(NumericJob):
             return float((w * (s - a @ g) ** 2).sum())
         with warnings.catch_warnings():
             warnings.simplefilter("ignore")
-            if not nonneg:
+            if not nonneg and not (w.sum(axis=0) == 0).any():      # (pixels without coverage are dropped by iterate() before any step is taken)
                 # single steps from an arbitrary starting point, no penalty: exact optimum in one factor given the other
                 h = HMF(s.copy(), w.copy(), K=K)
                 h.g, h.a = c["g0"].copy(), c["a0"].copy()
